@@ -1,6 +1,9 @@
 #!/bin/sh
-# tools/seedtest.sh <prop> <patch> : apply a seeded change to /repo, run ./check <prop>, undo it straight afterwards
+# tools/seedtest.sh <prop> <patch> : apply a seeded change to /repo, run ./check <prop> (evidence and replays of
+# the trial run go to a scratch directory, never into /verif/evidence), undo the change straight afterwards
 prop=$1; patch=$2
 git -C /repo apply "$(realpath $patch)" || { echo "patch does not apply"; exit 9; }
-cd /verif && ./check $prop 2>&1 | grep -v "^ENGINE\|^UNDECIDED ('" | tail -${TAIL:-8}
+scratch=$(mktemp -d /tmp/seedtest.XXXXXX)
+cd /verif && PYVC_EVIDENCE_DIR=$scratch ./check $prop 2>&1 | grep -v "^ENGINE\|^UNDECIDED ('" | tail -${TAIL:-8}
 git -C /repo checkout -- .
+rm -rf $scratch
